@@ -1,18 +1,12 @@
-(* K3 / K4 correspondence for C02: for a generated case (configuration, history of programs,
-   whitespace seeds) Coq computes, per program, the reference byte-code (`compile`), the source text
-   under every seed (`print`) and the expected observable (`denote_history`), rendered as ONE plain
-   string per case that lib/c02.py parses; Go then runs exactly the printed texts.
-
-   line   := (pack (outcomes "|" codes), texts)      pack = the bytes in chunks of 7, each chunk one base-256 number after a leading 1
-   outcomes := outcome (";" outcome)*          one per program of the history (stops after fuel / unsup)
-   outcome  := "V:" dv ":" env | "E:" class ":" env | "F" | "U:" hex(why)
-   dv       := "i" int | "s" hex | "n" | "a(" dv* ")"           (array items each followed by ",")
-   env      := (hex(name) "=" dv ",")*
-   codes    := code ("/" code)*                one per program
-   code     := (opname "#" operand ",")*       operand: int | "x" hex(string) | ""  (spans omitted)
-   texts    := list (per seed) of list (per program) of (flag, pack text); flag = contains the `(..) !=` shape *)
+(* K3 / K4 correspondence for C02, decided INSIDE Coq.  A case = configuration, history of programs (ASTs),
+   whitespace seeds and, per seed, what lib/c02.py observed: the text it had the real parser + VM run (printed
+   by its mirror of `print`), the byte-code the real parser produced and the result of the real run.
+   c02_check verifies per program: the text IS `print (mk_ws seed) ast`; the dumped byte-code IS `compile ast`
+   (span operands of mark.detail ignored: they depend on the printed text); value / error class / variables
+   are the ones `denote_history` prescribes.  The verdict is a short list of numbers (Coq's printer is far too
+   slow to hand texts back); `c02_explain` renders expected outcomes / reference code for failing cases. *)
 From Coq Require Import String Ascii NArith ZArith List Bool.
-From DS Require Import Model.Str Model.Value Model.VM Model.Ast Model.Denote Model.Compile.
+From DS Require Import Model.Str Model.PCG Model.Value Model.VM Model.Ast Model.Denote Model.Compile Corr.CorrK2.
 Import ListNotations.
 Open Scope string_scope.
 
@@ -69,45 +63,107 @@ Fixpoint show_code (c : code) : string :=
   | I op arg :: r => op_name op ++ "#" ++ show_operand arg ++ "," ++ show_code r
   end.
 
+(* ------------------------------------------------------------------ the checker (K3 + K4 inside Coq) *)
+(* what the harness observed for one program of a history *)
+Record obs := {
+  o_kind : N;                          (* 0 value, 1 error, 2 parse error, 3 panic / crash / hang *)
+  o_val : dval;
+  o_err : N;                           (* error class, 0 = message not in the table *)
+  o_vars : list (string * dval)
+}.
+(* one history printed under one seed: per program (text run by Go, byte-code dumped by Go, observation) *)
+Definition seed_run : Type := list (string * code * obs).
+
 Record c02_case := {
   k_cfg : config;
   k_fuel : nat;
   k_seeds : list N;
   k_progs : list stmt;
-  k_env : denv          (* always [] from Python: a fresh VM *)
+  k_runs : list seed_run
 }.
 
-(* a byte string as a list of numbers: each number is a leading 1 followed by up to 7 bytes in base 256
-   (small numbers are cheap to read back and to print) *)
-Fixpoint pack_go (s : string) (acc : N) (k : nat) : list N :=
-  match s with
-  | EmptyString => if (acc =? 1)%N then [] else [acc]
-  | String c r =>
-    let acc' := (acc * 256 + N_of_ascii c)%N in
-    match k with
-    | O => acc' :: pack_go r 1%N 6
-    | S k' => pack_go r acc' k'
+Fixpoint dval_of (v : dv) : dval :=
+  match v with
+  | DvInt z => DInt z
+  | DvStr s => DStr s
+  | DvNull => DNull
+  | DvArr l => DArr (map dval_of l)
+  end.
+Definition vars_of (m : denv) : list (string * dval) := map (fun kv => (fst kv, dval_of (snd kv))) m.
+
+Definition operand_eqb (a b : operand) : bool :=
+  match a, b with
+  | ONil, ONil => true
+  | OInt x, OInt y => (x =? y)%Z
+  | OStr x, OStr y => String.eqb x y
+  | OSpan _ _, OSpan _ _ => true        (* spans depend on the printed text *)
+  | _, _ => false
+  end.
+Definition instr_eqb (a b : instr) : bool :=
+  String.eqb (op_name (i_op a)) (op_name (i_op b)) && negb (String.eqb (op_name (i_op a)) "?")
+  && operand_eqb (i_arg a) (i_arg b).
+Fixpoint code_eqb (a b : code) : bool :=
+  match a, b with
+  | [], [] => true
+  | x :: r1, y :: r2 => if instr_eqb x y then code_eqb r1 r2 else false
+  | _, _ => false
+  end.
+
+(* failure kinds: 1 text is not `print ws ast`, 2 parse error, 3 panic / crash / hang, 4 K4 byte-code,
+   5 value vs error, 6 value, 7 error class, 8 variables; 9 = the definition stops here (fuel / unsupported):
+   not a failure, the rest of the history is not compared *)
+Definition check_step (o : doutcome) (x : obs) : N :=
+  match o with
+  | DOutOfFuel | DUnsup _ => 9
+  | DVal v env =>
+    if negb (o_kind x =? 0)%N then 5
+    else if negb (dval_eqb (o_val x) (dval_of v)) then 6
+    else if negb (dval_eqb (DDict (o_vars x)) (DDict (vars_of env))) then 8 else 0
+  | DErr c env =>
+    if negb (o_kind x =? 1)%N then 5
+    else if negb ((o_err x =? 0) || (o_err x =? eclass_num c))%N then 7
+    else if negb (dval_eqb (DDict (o_vars x)) (DDict (vars_of env))) then 8 else 0
+  end%N.
+
+(* -> (number of steps that agreed, first failure: (step, kind, flagged)) *)
+Fixpoint check_run (seed : N) (i : N) (ps : list stmt) (os : list doutcome) (run : seed_run) (good : N)
+  : N * option (N * N * bool) :=
+  match ps, run with
+  | p :: pr, (text, c, x) :: rr =>
+    let ws := mk_ws (seed + 7919 * i)%N in
+    let fl := paren_ne_flag ws p in
+    match os with
+    | [] => (good, None)
+    | o :: orest =>
+      match o with
+      | DOutOfFuel | DUnsup _ => (good, Some (i, 9%N, fl))
+      | _ =>
+        if negb (String.eqb (print ws p) text) then (good, Some (i, 1%N, fl))
+        else if (o_kind x =? 2)%N then (good, Some (i, 2%N, fl))
+        else if (o_kind x =? 3)%N then (good, Some (i, 3%N, fl))
+        else if negb (code_eqb (compile p) c) then (good, Some (i, 4%N, fl))
+        else match check_step o x with
+             | 0%N => check_run seed (i + 1)%N pr orest rr (good + 1)%N
+             | k => (good, Some (i, k, fl))
+             end
+      end
     end
-  end.
-Definition pack (s : string) : list N := pack_go s 1%N 6.
-
-Fixpoint texts_of (seed : N) (i : N) (ps : list stmt) : list (bool * list N) :=
-  match ps with
-  | [] => []
-  | p :: r =>
-    let ws := mk_ws (seed + 7919 * i) in
-    let toks := tokens ws p in
-    (paren_ne_scan None toks, pack (blanks GAny (N.shiftr (ws 0%nat) 3) ++ render ws toks 1)) :: texts_of seed (i + 1) r
+  | _, _ => (good, None)
   end.
 
-(* (outcomes "|" codes) packed, texts per seed and program *)
-Definition c02_line (c : c02_case) : list N * list (list (bool * list N)) :=
-  (pack (join ";" (map show_outcome (denote_history (k_fuel c) (k_cfg c) (k_progs c) (k_env c)))
-         ++ "|" ++ join "/" (map (fun p => show_code (compile p)) (k_progs c))),
-   map (fun s => texts_of s 0 (k_progs c)) (k_seeds c)).
+Definition c02_check (c : c02_case) : list (N * option (N * N * bool)) :=
+  let os := denote_history (k_fuel c) (k_cfg c) (k_progs c) [] in
+  map (fun sr => check_run (fst sr) 0 (k_progs c) os (snd sr) 0) (combine (k_seeds c) (k_runs c)).
+
+(* explanation of one case (used only for the few failing ones): expected outcomes, reference code *)
+Definition c02_explain (c : c02_case) : string :=
+  join ";" (map show_outcome (denote_history (k_fuel c) (k_cfg c) (k_progs c) []))
+  ++ "|" ++ join "/" (map (fun p => show_code (compile p)) (k_progs c)).
 
 Definition CFG2 (div0 mn mx : bool) : config :=
   {| cfg_ignore_div0 := div0; cfg_min_mode := mn; cfg_max_mode := mx; cfg_op_limit := 0;
      cfg_def_expr_empty := true; cfg_st_callback := false |}.
-Definition K (cfg : config) (fuel : nat) (seeds : list N) (progs : list stmt) : c02_case :=
-  {| k_cfg := cfg; k_fuel := fuel; k_seeds := seeds; k_progs := progs; k_env := [] |}.
+Definition K (cfg : config) (fuel : nat) (seeds : list N) (progs : list stmt) (runs : list seed_run) : c02_case :=
+  {| k_cfg := cfg; k_fuel := fuel; k_seeds := seeds; k_progs := progs; k_runs := runs |}.
+Definition OB (kind : N) (v : dval) (err : N) (vars : list (string * dval)) : obs :=
+  {| o_kind := kind; o_val := v; o_err := err; o_vars := vars |}.
